@@ -373,11 +373,20 @@ def load_known(pid):
 
 # ------------------------------------------------------------------ the run
 
+PHASES = {}
+
+
 def evaluate(prop, cases, tag='run'):
     """impl + Coq on a list of cases -> (impl_outs, terms, codes, errors)."""
+    t0 = time.time()
     outs = run_impl_all(prop, cases)
+    t1 = time.time()
     terms = [prop.to_coq(c, o) for c, o in zip(cases, outs)]
+    t2 = time.time()
     codes, errors = coq_eval(prop, terms, shard=getattr(prop, 'SHARD', 300), tag=tag)
+    PHASES['impl_s'] = PHASES.get('impl_s', 0) + round(t1 - t0, 2)
+    PHASES['print_s'] = PHASES.get('print_s', 0) + round(t2 - t1, 2)
+    PHASES['coq_eval_s'] = PHASES.get('coq_eval_s', 0) + round(time.time() - t2, 2)
     return outs, terms, codes, errors
 
 
@@ -472,6 +481,7 @@ def run_property(prop, tier='quick', seed=0, replay=None):
 
     # ---- (1) proofs
     ok_build, build_log = build()
+    PHASES['build_s'] = round(time.time() - t0, 2)
     words = forbidden_words()
     # make -k may fail on a file that belongs to another property; what matters here is that
     # Props/<pid>.v recompiles against freshly built dependencies (coqc checks their consistency)
@@ -479,11 +489,14 @@ def run_property(prop, tier='quick', seed=0, replay=None):
     if not pr['ok'] and not ok_build:
         pr['log'] = (pr['log'] + '\n--- make ---\n' + build_log)[-3000:]
     proof_broken = (not pr['ok']) or bool(words)
+    PHASES['proof_s'] = round(time.time() - t0 - PHASES['build_s'], 2)
 
     # ---- (2) correspondence
     rng = random.Random(seed)
     corpus = load_corpus(prop)
+    tg = time.time()
     gen = list(prop.generate(rng, tier))
+    PHASES['generate_s'] = round(time.time() - tg, 2)
     cases = corpus + gen
     impl_t0 = time.time()
     outs, terms, codes, errors = evaluate(prop, cases)
@@ -630,6 +643,8 @@ def run_property(prop, tier='quick', seed=0, replay=None):
             'known_findings_hit': {str(k): len(v) for k, v in known_hit.items()},
             'findings_not_reproduced': not_reproduced,
             'correspondence_wall_s': round(corr_wall, 2),
+            'phases_s': dict(PHASES),
+            'extra': (prop.extra_evidence(cases, outs) if hasattr(prop, 'extra_evidence') else {}),
             'notes': notes,
         },
         'assumptions': list(getattr(prop, 'ASSUMPTIONS', [])),
